@@ -131,11 +131,6 @@ proof fn lemma_same_keys<'b>(hs: Seq<(Seq<u8>, BucketMeta)>, ents: Seq<ChildEntr
 }
 // the allocator-side frame of the tree layer (same predicate the commit unit assumes of rebalance / spill)
 //@include prelude/tree_frame_spec.rs
-// every open child still has its entry in this bucket's tree (ASSUMED invariant of the handle map: a child is registered
-// together with its entry, and delete_bucket removes both)
-spec fn children_have_entries(b: InnerBucket) -> bool {
-    forall|k: Seq<u8>| b.buckets.has(k) ==> has_entry(b.tree@, k) && entry_is_bucket(b.tree@, k)
-}
 #[verifier::external_body]
 proof fn axiom_entries_are_the_open_children<'b>(m: BucketMap<'b>)
     ensures
